@@ -86,6 +86,8 @@ Fixpoint nodup_s (l : list string) : bool :=
 Fixpoint nodup_n (l : list N) : bool :=
   match l with [] => true | a :: r => negb (existsb (N.eqb a) r) && nodup_n r end.
 Definition mem_s (a : string) (l : list string) : bool := existsb (String.eqb a) l.
+Fixpoint dedup_s (l : list string) : list string :=
+  match l with [] => [] | a :: r => if existsb (String.eqb a) r then dedup_s r else a :: dedup_s r end.
 Definition mem_n (a : N) (l : list N) : bool := existsb (N.eqb a) l.
 
 (** ** initial value *)
@@ -136,7 +138,7 @@ Fixpoint wf (s : spec) : bool :=
   | SVariant os i =>
       Nat.leb 2 (length os) && nodup_s (map fst os) && mem_s i (map fst os) &&
       forallb (fun kv => wf (snd kv)) os
-  | SEnum vs i => Nat.leb 2 (length vs) && nodup_s vs && mem_s i vs
+  | SEnum vs i => Nat.leb 2 (length (dedup_s vs)) && mem_s i vs
   | SOptional vt _ => wf vt
   | SConst => true
   end.
